@@ -21,7 +21,21 @@ import (
 	"time"
 )
 
-const verifRoot = "/verif"
+// verifRoot: the directory holding bin/, evidence/, replays/, known_findings.json
+// (the parent of the directory the binary lives in; /verif when that cannot be determined).
+var verifRoot = func() string {
+	if r := os.Getenv("VERIF_ROOT"); r != "" {
+		return r
+	}
+	if exe, err := os.Executable(); err == nil {
+		if d := filepath.Dir(filepath.Dir(exe)); d != "/" && d != "." {
+			if _, err := os.Stat(filepath.Join(d, "properties.jsonl")); err == nil {
+				return d
+			}
+		}
+	}
+	return "/verif"
+}()
 
 // Prop describes one property check.
 type Prop struct {
